@@ -170,6 +170,63 @@ class _Ones:
         self.n = n
 
 
+def axis_span_functions(prog) -> dict:
+    """{qual: c} for the functions f(img) PROVED to return, for 1-, 2- and 3-dimensional arrays, per axis
+    (last occupied index - first occupied index + c) of the non-zero region, with one constant c (c = 1: the
+    extent in voxels), by running them in the symbolic bounding-box domain.  Other interpretations may read a
+    call of such a function as 'extent + (c - 1)'."""
+    cache = prog.__dict__.get("_axis_span")
+    if cache is not None:
+        return cache
+    out = {}
+    try:
+        m = prog.module("utils.numpy_utils")
+    except Exception:
+        m = None
+    for f in (list(m.functions.values()) if m is not None else []):
+        req = [p for p in f.call_params if p.default is None]
+        if len(req) != 1 or f.name in ("_get_bbox_nd",):
+            continue
+        ok, consts = True, set()
+        for N in (1, 2, 3):
+            try:
+                holder = []
+
+                def make(prefix, N=N):
+                    img = ImgV(N)
+                    it = BBoxInterp(prog, f, {req[0].name: img}, prefix=prefix)
+                    it.root.domain_slacks = []
+                    holder.append(img)
+                    return it
+
+                outs = enumerate_paths(make, max_paths=64)
+            except Exception:
+                ok = False
+                break
+            for o, img in zip(outs, holder):
+                if o.kind == "raise" and o.exc == "AssertionError":
+                    continue
+                v = o.value if o.kind == "return" else None
+                if not (isinstance(v, (tuple, list)) and len(v) == N and not o.decisions):
+                    ok = False
+                    break
+                for j, x in enumerate(v):
+                    xl = self_lv(x)
+                    d = None if xl is None else (xl.poly - (img.hi[j] - img.lo[j]))
+                    if d is None or not set(d.terms) <= {()}:
+                        ok = False
+                        break
+                    consts.add(int(d.terms.get((), 0)))
+                if not ok:
+                    break
+            if not ok:
+                break
+        if ok and len(consts) == 1:
+            out[f.qual] = consts.pop()
+    prog.__dict__["_axis_span"] = out
+    return out
+
+
 def check_bbox(ctx: Ctx):
     prog = ctx.prog
     f = prog.func("utils.numpy_utils:_get_bbox_nd")
